@@ -38,7 +38,7 @@ def own_class_ok(case, res, J, N):
         qn = n2[off]
         # within δ: √qn ≥ √x − δ
         for c, x in zip(cands, n2):
-            if (c in L) == (q in L) and not oracles.score_ge(qn, Fraction(0), x, J.delta):
+            if (c in L) == (q in L) and not oracles.score_ge(qn, Fraction(0), x, J.deltas[j]):
                 return j, q, c
         i = j + off
         p[j], p[i] = p[i], p[j]
@@ -78,7 +78,7 @@ def run(ctx: C.Ctx):
             st = oracles.MGS(case.B)
             for t in range(j):
                 st.eliminate(res["ranking"][t])
-            if oracles.score_ge(st.norm2(q), Fraction(0), st.norm2(c), J.delta):
+            if oracles.score_ge(st.norm2(q), Fraction(0), st.norm2(c), J.deltas[j]):
                 raise C.HarnessError("own-class check: Lean norms and MGS oracle disagree")
             ctx.violation("concrete",
                           f"GQR {opt}: step {j} picks sensor {q} although sensor {c} of the same class has a larger residual",
